@@ -209,6 +209,14 @@ func Discharge(c *core.Ctx, r *core.Rule, sites []*Site, opt Options) int {
 			// the compiler attributes bounds checks of an inlined callee to the call
 			// site: the obligation is the callee's own (enumerated there when the
 			// callee belongs to an analysed package)
+			if id, ok := ce.Fun.(*ast.Ident); ok {
+				if v, ok := s.Pkg.TypesInfo.Uses[id].(*types.Var); ok && !v.IsField() {
+					if _, isSig := v.Type().Underlying().(*types.Signature); isSig {
+						r.Pass(fmt.Sprintf("%s at %s — inlined copy of the local function literal %s, whose own obligations are enumerated at the literal", s.Key(), pos, id.Name))
+						continue
+					}
+				}
+			}
 			if fn := typeutil.StaticCallee(s.Pkg.TypesInfo, ce); fn != nil && fn.Pkg() != nil {
 				cp := fn.Pkg().Path()
 				switch {
